@@ -286,6 +286,11 @@ type Prop struct {
 	Needs []string
 	// RequireTags must all be observed in a run, otherwise the run "observed nothing"
 	RequireTags func(tier string) []string
+	// ExpectTags are observations that depend on how the implementation works (an asynchronous writer that lags, a
+	// solver exit, sub-stepping, several arrival orders of cell goroutines) or on verif hooks being called: when one is
+	// not made the run says so (NOT-OBSERVED line, evidence key not_observed) but the verdict is unaffected - a correct
+	// implementation without that mechanism must not fail the check.
+	ExpectTags func(tier string) []string
 	Exhaustive  func(tier string) bool
 	// Extra evidence keys computed from the aggregate
 	Extra func(agg *Aggregate) map[string]interface{}
